@@ -40,4 +40,8 @@ form (str, list of lines, FST node, pure AST), the NFKC form that CPython will r
 (table extracted by running the functions on non-NFKC probe spellings on every run). -/
 def identFormsNormalised : Bool := Pfst.Gen.C08Ident.table.all (fun r => r.2.2)
 
+/-- `astutil.last_block_header_child`, ClassDef case: the last starred base is the last header child exactly when it
+starts after the last keyword in SOURCE ORDER: `(base.lineno, base.col_offset) > (kw.lineno, kw.col_offset)`. -/
+def posAfter (l1 c1 l2 c2 : Nat) : Bool := decide (l1 > l2) || (l1 == l2 && decide (c1 > c2))
+
 end Pfst.SharedDelims
